@@ -13,7 +13,7 @@ theorem signBody_injective (c c' : Bytes) (t t' : Int) (h h' : Bytes)
     (ht : hashTypeSupported t = true) (ht' : hashTypeSupported t' = true)
     (hl : h.length = hashLen t) (hl' : h'.length = hashLen t')
     (e : signBody c t h = signBody c' t' h') : c = c' ∧ t = t' ∧ h = h' := by
-  sorry
+  exact signBody_inj c c' t t' h h' ht ht' hl hl' e
 
 /-- A detached signature verifies under a public key exactly when it was created by a
 matching private key over the same context, hash algorithm and (digest of the) data. -/
@@ -22,13 +22,48 @@ theorem verify_iff_created (S : SigScheme) (H : HashFam) (s : Signature) (ctx pk
       hashTypeSupported s.hashType = true ∧
       ∃ h sk, H.sum s.hashType data = some h ∧ S.pub sk = pk ∧
         s.sigData = S.sign sk (signBody ctx s.hashType h) := by
-  sorry
+  unfold verifyWithPublic
+  constructor
+  · intro hv
+    split at hv
+    · cases hv
+    split at hv
+    · cases hv
+    split at hv
+    · cases hv
+    split at hv
+    · cases hv
+    · rename_i h hsum
+      split at hv
+      · rename_i hver
+        obtain ⟨sk, hpk, hsig⟩ := S.unforge _ _ _ hver
+        refine ⟨?_, h, sk, hsum, hpk, hsig⟩
+        have := H.supported s.hashType data
+        rw [hsum] at this
+        simpa using this.symm
+      · cases hv
+  · rintro ⟨hsup, h, sk, hsum, hpk, hsig⟩
+    have hne : s.sigData.isEmpty = false := by
+      rw [hsig]
+      have := S.sig_nonempty sk (signBody ctx s.hashType h)
+      cases hx : S.sign sk (signBody ctx s.hashType h) with
+      | nil => exact absurd hx this
+      | cons a l => rfl
+    rw [if_neg (hashTypeSupported_ne_zero hsup), hne, hashTypeSupported_valid hsup]
+    simp only [Bool.false_eq_true, if_false, Bool.not_true, hsum]
+    rw [hsig, ← hpk, S.complete]
+    rfl
 
 /-- Completeness: what `NewSignature` creates verifies under the matching public key. -/
 theorem created_verifies (S : SigScheme) (H : HashFam) (sk ctx data : Bytes) (t : Int) (s : Signature)
     (hs : newSignature (S.sign sk) H.sum ctx t data = some s) :
     verifyWithPublic S.verify H.sum s ctx (S.pub sk) data = .good := by
-  sorry
+  obtain ⟨hv, h, hsum, rfl⟩ := newSignature_some _ _ _ _ _ _ hs
+  have hsup : hashTypeSupported t = true := by
+    have := H.supported t data
+    rw [hsum] at this
+    simpa using this.symm
+  exact (verify_iff_created S H _ ctx (S.pub sk) data).mpr ⟨hsup, h, sk, hsum, rfl, rfl⟩
 
 /-- Binding: a signature created by `sk` over `(ctx, t, data)` verifies under `(pk', ctx',
 data')`, possibly relabelled with hash type `t'`, only if the key, the context, the hash type
@@ -38,13 +73,42 @@ theorem created_binds (S : SigScheme) (H : HashFam) (sk ctx data : Bytes) (t : I
     (t' : Int) (ctx' pk' data' : Bytes)
     (hv : verifyWithPublic S.verify H.sum { s with hashType := t' } ctx' pk' data' = .good) :
     pk' = S.pub sk ∧ ctx' = ctx ∧ t' = t ∧ H.sum t data' = H.sum t data := by
-  sorry
+  obtain ⟨_, h, hsum, rfl⟩ := newSignature_some _ _ _ _ _ _ hs
+  have hsup : hashTypeSupported t = true := by
+    have := H.supported t data
+    rw [hsum] at this
+    simpa using this.symm
+  obtain ⟨hsup', h', sk', hsum', hpk', hsig'⟩ :=
+    (verify_iff_created S H _ ctx' pk' data').mp hv
+  simp only at hsup' hsum' hsig'
+  obtain ⟨hpub, hbody⟩ := S.sign_inj _ _ _ _ hsig'
+  obtain ⟨hc, htt, hh⟩ := signBody_injective ctx ctx' t t' h h' hsup hsup'
+    (H.len_ok _ _ _ hsum) (H.len_ok _ _ _ hsum') hbody
+  subst htt
+  subst hh
+  exact ⟨by rw [← hpk', hpub], hc.symm, rfl, by rw [hsum, hsum']⟩
 
 /-- Unknown hash types and empty signature bytes are rejected by verification… -/
 theorem reject_malformed_verify (verify : VerifyFn) (sum : SumFn) (s : Signature) (ctx pk data : Bytes)
     (h : hashTypeSupported s.hashType = false ∨ s.sigData = []) :
     verifyWithPublic verify sum s ctx pk data = .err := by
-  sorry
+  unfold verifyWithPublic
+  rcases h with h | h
+  · by_cases h0 : s.hashType = 0
+    · rw [if_pos h0]
+    · rw [if_neg h0]
+      have hv : hashTypeValid s.hashType = false := by
+        cases hx : hashTypeValid s.hashType with
+        | false => rfl
+        | true => rw [hashTypeSupported_of_valid_ne_zero hx h0] at h; cases h
+      rw [hv]
+      split
+      · rfl
+      · rfl
+  · rw [h]
+    split
+    · rfl
+    · rfl
 
 /-- …and `Validate` rejects hash types outside {0,1,2,3}, empty signature bytes and
 unparsable embedded public keys. -/
@@ -52,11 +116,20 @@ theorem reject_malformed_validate (s : Signature)
     (h : hashTypeValid s.hashType = false ∨ s.sigData = [] ∨
       (s.pubKey ≠ [] ∧ unmarshalPublicKey s.pubKey = none)) :
     s.validate = false := by
-  sorry
+  unfold Signature.validate
+  rcases h with h | h | ⟨h1, h2⟩
+  · rw [h]; rfl
+  · rw [h]; simp
+  · rw [h2]
+    cases hx : s.pubKey with
+    | nil => exact absurd hx h1
+    | cons a l => simp
 
 /-- Non-vacuity: the hypotheses are satisfiable (toy scheme) and the theorem fires. -/
 example : ∃ s, newSignature (ToySig.sign [1, 2]) ToyHash.sum [9] 3 [5, 6] = some s ∧
     verifyWithPublic ToySig.verify ToyHash.sum s [9] (ToySig.pub [1, 2]) [5, 6] = .good := by
-  sorry
+  have h : (newSignature (ToySig.sign [1, 2]) ToyHash.sum [9] 3 [5, 6]).isSome = true := by decide
+  obtain ⟨s, hs⟩ := Option.isSome_iff_exists.mp h
+  exact ⟨s, hs, created_verifies ToySig ToyHash [1, 2] [9] [5, 6] 3 s hs⟩
 
 end Bifrost.Props.C02
